@@ -59,12 +59,17 @@ def classify(x, peaks, troughs):
     return labs
 
 
-def core(x, peaks, troughs, rec):
+def core(x, peaks, troughs, rec, idx_dtype=None):
     peaks = np.asarray(peaks, dtype=int)
     troughs = np.asarray(troughs, dtype=int)
     exp_r, exp_d = ref.ref_midpoints(x, peaks, troughs)
     xin = x.copy()
-    rises, decays = guarded(find_zerox, xin, peaks.copy(), troughs.copy())
+    if idx_dtype:
+        # index arrays as other tools hand them over (int32 from MATLAB / C code, uint16 / int16 from compact storage); every
+        # index fits the dtype
+        rises, decays = guarded(find_zerox, xin, peaks.astype(idx_dtype), troughs.astype(idx_dtype))
+    else:
+        rises, decays = guarded(find_zerox, xin, peaks.copy(), troughs.copy())
     rises = np.asarray(rises)
     decays = np.asarray(decays)
     ev = sorted([(int(p), 'P') for p in peaks] + [(int(t), 'T') for t in troughs])
@@ -107,9 +112,19 @@ def check_enum(case, rec):
         pre = (1e4 * np.sin(np.arange(L) * 0.3)).astype(np.float32)
         x = np.concatenate([pre, x.astype(np.float32)])
         shift = L
+    if case.get('ulp_base'):
+        # a trace riding on an offset and quantised at the last bit of its dtype: neighbouring levels are adjacent floats, so the
+        # halfway level of a flank between adjacent levels rounds onto one of its two extrema
+        base, dt = case['ulp_base']
+        dt = np.dtype(dt)
+        b = dt.type(base)
+        x = (b + np.array(case['x'], dtype=dt) * np.spacing(b)).astype(dt)
+    if case.get('quiet_prefix'):
+        x = np.concatenate([np.zeros(case['quiet_prefix'], dtype=x.dtype), x])
+        shift += case['quiet_prefix']
     rec.label('scale:%s' % ('1' if not case.get('scale_exp') else ('tiny' if case['scale_exp'] < -20 else 'other')),
-              'gain:%s' % (case.get('gain') or 1))
-    core(x, [p + shift for p in case['peaks']], [t + shift for t in case['troughs']], rec)
+              'gain:%s' % (case.get('gain') or 1), 'ulp-levels' if case.get('ulp_base') else 'ordinary-levels', 'index-dtype:%s' % (case.get('idx_dtype') or 'int64'))
+    core(x, [p + shift for p in case['peaks']], [t + shift for t in case['troughs']], rec, idx_dtype=case.get('idx_dtype'))
 
 
 def check_pipeline(case, rec):
@@ -167,9 +182,17 @@ def strat_raw(draw, tier):
     start = draw(st.sampled_from(['P', 'T']))
     peaks = [i for j, i in enumerate(idx) if (j % 2 == 0) == (start == 'P')]
     troughs = [i for j, i in enumerate(idx) if (j % 2 == 0) != (start == 'P')]
-    return {'x': x, 'peaks': peaks, 'troughs': troughs, 'scale_exp': draw(st.sampled_from([0, 0, 0, -50, -40, -30, -10, 3, 20])),
+    case = {'x': x, 'peaks': peaks, 'troughs': troughs, 'scale_exp': draw(st.sampled_from([0, 0, 0, -50, -40, -30, -10, 3, 20, -600, -1040, 600])),
             'gain': draw(st.sampled_from([None, None, 0.195, 0.1, 1.0 / 3.0, 0.0061, 7.3])),
             'loud_prefix': draw(st.sampled_from([0, 0, 0, 0, 20000]))}
+    special = draw(st.integers(0, 9))
+    if special == 0:
+        case.update(scale_exp=0, gain=None, loud_prefix=0,
+                    ulp_base=draw(st.sampled_from([[1.0, 'float64'], [1000.0, 'float32'], [-3.0e7, 'float64'], [0.1, 'float64'], [65504.0, 'float32']])))
+    elif special == 1:
+        dt, pre = draw(st.sampled_from([['int32', 0], ['int16', 0], ['uint16', 0], ['uint8', 0], ['int16', 16384 + 300], ['int16', 30000], ['uint16', 33000], ['uint16', 60000], ['int32', 70000]]))
+        case.update(loud_prefix=0, idx_dtype=dt, quiet_prefix=pre)
+    return case
 
 
 @st.composite
